@@ -64,6 +64,7 @@ type disruptState struct {
 	lastCache   map[string]int      // "Kind/ns/name" -> step of the last cache delivery for the object
 	nominatedAt map[int]map[string]bool
 	nomEvents   map[string]int // node name -> step of last Nominated event
+	nomTimes    map[string][]time.Time // node name -> instants of the Nominated events seen for it
 	evWasIn     map[types.UID]bool
 	rsSpec      map[string]*corev1.Pod
 	rsDesired   map[string]int
@@ -82,7 +83,7 @@ func (p *provProfile) setupDisrupt() {
 	s := p.s
 	ch := p.ch
 	p.d = &disruptState{cmds: map[string]*cmdInfo{}, byCand: map[string]*cmdInfo{}, initEver: map[string]bool{}, lastCache: map[string]int{},
-		nominatedAt: map[int]map[string]bool{}, nomEvents: map[string]int{}, rsSpec: map[string]*corev1.Pod{}, rsDesired: map[string]int{}}
+		nominatedAt: map[int]map[string]bool{}, nomEvents: map[string]int{}, nomTimes: map[string][]time.Time{}, rsSpec: map[string]*corev1.Pod{}, rsDesired: map[string]int{}}
 	p.e.Opts.FeatureGates.SpotToSpotConsolidation = ch.Pick("dis.spot2spot", 2) == 0
 	s.Mgr.OnTaskStart(func(t *Task) {
 		if t.Ctrl.Name == "disruption" && p.e.Cluster != nil {
@@ -279,7 +280,8 @@ func (p *provProfile) disruptOp() bool {
 		if s.FaultsOn && !s.Cfg.NoFaults {
 			now := s.Now()
 			next := now.Truncate(5 * time.Minute).Add(5 * time.Minute)
-			d := next.Sub(now) + time.Duration(ch.Pick("dis.edge", 5)-2)*time.Second
+			// right at the edge, or some seconds before it so that a 15 s validation delay straddles the edge
+			d := next.Sub(now) + time.Duration([]int{0, -2, -1, 1, 2, -8, -12}[ch.Pick("dis.edge", 7)])*time.Second
 			if d > 0 {
 				s.Stat("fault.clock.jump")
 				p.note("clock jump +%v (window edge)", d)
@@ -661,6 +663,15 @@ func (p *provProfile) checkBlockers(ci *cmdInfo) {
 		// nomination: nominated at the start of the decision and at acceptance with no nomination in between
 		if d.nominatedAt[t.ID][c.pid] && p.e.Cluster.IsNodeNominated(c.pid) && d.nomEvents[c.node] < start {
 			viol("nominated: the node was nominated for pending pods")
+		}
+		// the same from the simulator's own record of nomination events, independent of the nomination state under
+		// test: a nomination announced before the deciding reconcile started protects the node for at least one batch
+		// window (the configured nomination period is twice that), so a whole decision inside that span is a violation
+		for _, tn := range d.nomTimes[c.node] {
+			if !tn.After(t.Start) && now.Before(tn.Add(p.e.Opts.BatchMaxDuration)) {
+				viol(fmt.Sprintf("nominated: a Nominated event for the node was published at %s, %v before the command was accepted", tn.Format(time.RFC3339), now.Sub(tn).Truncate(time.Second)))
+				break
+			}
 		}
 		var pool *v1.NodePool
 		if o := s.cache.Get(gvkNodePool, types.NamespacedName{Name: c.pool}); o != nil {
